@@ -143,23 +143,26 @@ def floatFilter (fc : FloatConv) (s : Str) : Option FilterRes :=
 
 /-! ## `float`: the formatter `_float_out` -/
 
-/-- `Decimal(repr)`: the digits of the mantissa and the position of the decimal point in front of
-them, exponent applied -/
-def parseRepr (r : Str) : Option (Bool × Str × Int) :=
-  let neg := r.head? == some '-'
-  let body := if neg then r.drop 1 else r
+/-- the exponent part of a `repr` text applied to the position `n` of the decimal point -/
+def mantTail (all : Str) (n : Int) : Str → Option (Str × Int)
+  | [] => some (all, n)
+  | 'e' :: '+' :: x => if x.isEmpty || !x.all Char.isDigit then none else some (all, n + (digitsValue x : Int))
+  | 'e' :: '-' :: x => if x.isEmpty || !x.all Char.isDigit then none else some (all, n - (digitsValue x : Int))
+  | _ => none
+
+/-- `Decimal(text)` for an unsigned `repr` text `I[.F][e±X]`: the digits `I ++ F` of the mantissa
+and the position of the decimal point in front of them, exponent applied -/
+def parseMant (body : Str) : Option (Str × Int) :=
   let mant := body.takeWhile (· != 'e')
   let ip := mant.takeWhile (· != '.')
   let fp := (mant.drop ip.length).drop 1
   if ip.isEmpty || !(ip ++ fp).all Char.isDigit then none
-  else
-    match body.drop mant.length with
-    | [] => some (neg, ip ++ fp, (ip.length : Int))
-    | 'e' :: '+' :: x =>
-      if x.isEmpty || !x.all Char.isDigit then none else some (neg, ip ++ fp, (ip.length : Int) + (digitsValue x : Int))
-    | 'e' :: '-' :: x =>
-      if x.isEmpty || !x.all Char.isDigit then none else some (neg, ip ++ fp, (ip.length : Int) - (digitsValue x : Int))
-    | _ => none
+  else mantTail (ip ++ fp) (ip.length : Int) (body.drop mant.length)
+
+/-- `Decimal(repr)`: sign, digits, position of the decimal point -/
+def parseRepr (r : Str) : Option (Bool × Str × Int) :=
+  (parseMant (if (r.head? == some '-') = true then r.drop 1 else r)).map
+    fun x => (r.head? == some '-', x.1, x.2)
 
 /-- `format(d, 'f')` of the `Decimal` with digit string `all` and the point after `pt` digits:
 coefficient without leading zeros (`0` for zero), exponent `pt - |all|`; no exponent notation, no
@@ -283,6 +286,25 @@ def floatsOK (fc : FloatConv) : List Sym → List Val → Bool
     (match f with
      | some g => !isFloatFid g || floatValOK fc v
      | none => true) && floatsOK fc p vs
+
+/-- every text a `float` wildcard takes while the pattern is matched against `path` is a numeral the
+model converts itself (`exactDec`: at most 15 significant digits) with the decimal point after at
+most 16 digits (below 1e16 the formatted value always has a decimal point) -/
+def floatTextsExact (env : FilterEnv) : List Sym → Str → Bool
+  | [], _ => true
+  | .lit _ :: _, [] => true
+  | .lit _ :: p, _ :: path => floatTextsExact env p path
+  | .tok f :: p, path =>
+    match tokRes env f path with
+    | none => true
+    | some r =>
+      (match f with
+       | some g =>
+         !isFloatFid g ||
+           (match floatLex path with
+            | some l => exactDec l.dec && decide (l.dec.pt ≤ 16)
+            | none => true)
+       | none => true) && floatTextsExact env p (path.drop r.n)
 
 /-- no converting wildcard (`int`, `float`) in the pattern: the URL built from matched values is
 the matched text itself -/
